@@ -120,9 +120,9 @@ func (s *staleCtx) pointsInto(v ssa.Value, fld *types.Var, depth int) bool {
 	return false
 }
 
-func staleElementRule(c *Ctx, rule string, floor int) {
+func staleElementRule(c *Ctx, rule string, floor int, pred func(string) bool) {
 	p := c.P
-	fns := p.SrcFuncs(func(pp string) bool { return libComponentPkg(pp) })
+	fns := p.SrcFuncs(func(pp string) bool { return libComponentPkg(pp) && pred(pp) })
 	s := &staleCtx{p: p, own: map[*ssa.Function]map[*types.Var]ssa.Instruction{}, memo: map[*ssa.Function]map[*types.Var]bool{}, calls: map[*ssa.Function][]ssa.CallInstruction{}}
 	nSplice := 0
 	for _, fn := range fns {
